@@ -468,6 +468,45 @@ func Random(w *vt.W, rng *rand.Rand, n int, big bool) {
 			"nlines": bytes.Count(dt, []byte{'\n'}) + 1, "stop": dstop, "marks": marks, "detail": ddetail})
 	}
 	BigLines(w, rng, n/4+24)
+	BigExact(w, rng)
+}
+
+// BigExact: FASTA and FASTQ files whose LAST physical line fills bufio's buffer exactly (4096 or 8192 bytes, or
+// one less under CRLF) and is not followed by a line terminator: the reader gets the line as "prefix" fragments
+// and then io.EOF, and must still deliver it (C04: omitting the final newline; lines longer than any buffer).
+func BigExact(w *vt.W, rng *rand.Rand) {
+	for id, n := range []int{4096, 8192, 12288, 4095, 8191, 4097} {
+		for _, format := range []string{"fasta", "fastq"} {
+			for _, crlf := range []bool{false, true} {
+				cfg := randomCfg(rng, format)
+				if format == "fasta" {
+					cfg["w"] = 20000
+				}
+				recs := []Rec{genSeqRec(rng, format == "fastq", offsetOf(cfg), 50), genSeqRec(rng, format == "fastq", offsetOf(cfg), n)}
+				last := recs[1]
+				for len(nums(last["letters"])) != n { // genSeqRec draws a length up to n: redo until it is n exactly
+					last["letters"] = letters(rng, n, "ACGTNacgtn")
+					if format == "fastq" {
+						q := make([]int, n)
+						for i := range q {
+							q[i] = 1 + rng.Intn(40) // never '@' or '+' as a first letter at offset 33/64 matters not here
+						}
+						last["quals"] = q
+					}
+				}
+				text, _, werr := WriteAll(format, cfg, recs, id)
+				ops := []string{"no final newline"}
+				t := text[:len(text)-1]
+				if crlf {
+					ops = append(ops, "crlf")
+					t = bytes.ReplaceAll(t, []byte{'\n'}, []byte{'\r', '\n'})
+				}
+				results, _, detail := ReadAll(format, cfg, t, id)
+				w.Emit(vt.Ev{"op": "big", "fmt": format, "cfg": cfg, "valid": true, "bytes": len(t), "layout": ops, "lastline": n,
+					"want": digest(recs), "got": digest(results), "bad": werr, "detail": detail})
+			}
+		}
+	}
 }
 
 // featDigest: digests of feature records (BED, GFF) in the shape of digest().
